@@ -7,6 +7,7 @@ stated bounds; terms are derived from the skeleton deterministically.
 """
 from __future__ import annotations
 
+import hashlib
 import itertools
 
 SHAPE = [4]
@@ -59,14 +60,20 @@ def build_program(R, ops, outs, stored=None, mode="plain"):
             out = combine(parts, 1000 * (r + 1))
         else:
             out = ["bin", "mul", inp(r), ["py", 0.5]]
-        # staple this rank's sends onto the output, in op order
-        res = out
-        for i, op in enumerate(ops):
+        # staple this rank's sends onto the output: mode "plain" in op order around the output (the sends are traversed
+        # before the output's receives), "rev" in reverse op order, "rf" (receives first) around the input and added,
+        # times zero, to the output -- so the output's receives are traversed before the sends
+        res = inp(r) if mode == "rf" else out
+        nsends = 0
+        for i, op in (reversed(list(enumerate(ops))) if mode == "rev" else enumerate(ops)):
             if op["src"] == r:
                 pl = payload_term(ops, i)
                 if stored and stored.get("op") == i:
                     pl = ["tag", ["stored"], pl]
                 res = ["send", pl, op["dst"], op["tag"], res]
+                nsends += 1
+        if mode == "rf":
+            res = ["bin", "add", out, ["bin", "mul", res, ["py", 0.0]]] if nsends else out
         if stored and stored.get("out") == r:
             res = ["bin", "add", ["tag", ["stored"], ["bin", "mul", res, ["py", 1.0]]], ["py", 0.0]]
         outsl = [["out", res]]
@@ -162,6 +169,13 @@ def programs(tier="quick", seed=0):
                 if used != set(range(len(ops))):
                     continue
                 res.append((f"R{R}M{M}", build_program(R, ops, {r: outs[r] for r in range(R)})))
+                # the other two traversal orders of the same computation: a seed-chosen slice
+                if M >= 2:
+                    h = int(hashlib.md5(k.encode()).hexdigest()[:8], 16)
+                    nsl = 10 if tier == "quick" else 3
+                    if h % nsl == seed % nsl:
+                        for mode in ("rev", "rf"):
+                            res.append((f"R{R}M{M}~{mode}", build_program(R, ops, {r: outs[r] for r in range(R)}, mode=mode)))
     # structured larger families
     res += structured(tier)
     return res
